@@ -15,6 +15,7 @@ This private submodule is *not* intended for importation by downstream callers.
 # ....................{ IMPORTS                            }....................
 from beartype.roar import BeartypeClawImportConfException
 from beartype._conf.confmain import BeartypeConf
+from collections.abc import Callable
 from pprint import pformat
 
 # Original cache_from_source() function defined by the private (*gulp*)
@@ -199,32 +200,103 @@ class ModuleNameToBeartypeConf(dict[str, 'BeartypeConf']):
             ) from exception
 
 # ....................{ CACHERS                            }....................
+def make_optimization_marker_beartype(conf: BeartypeConf) -> str:
+    '''
+    **Beartype-specific optimization marker** (i.e., alphanumeric string
+    uniquifying the filenames of bytecode files compiled from modules hooked by
+    :mod:`beartype.claw` import hooks under the passed beartype configuration).
+
+    This marker is the concatenation of:
+
+    * :data:`beartype._data.claw.dataclawmagic.OPTIMIZATION_MARKER_BEARTYPE`,
+      uniquifying those filenames against both bytecode compiled *without*
+      import hooks and bytecode compiled by other :mod:`beartype` versions.
+    * An injective encoding of *every* configuration option deciding the
+      abstract syntax tree (AST) generated by
+      :class:`beartype.claw._ast.clawastmain.BeartypeNodeTransformer` and thus
+      the bytecode cached in those files. All other options are looked up at
+      runtime (via the ``conf`` keyword injected by that transformer) and thus
+      need *not* be encoded. Omitting this encoding would erroneously reuse
+      bytecode previously compiled under one configuration by a prior Python
+      process for the same module hooked under another configuration by the
+      current process (e.g., silently dropping :pep:`526`-compliant annotated
+      variable assignment type-checks re-enabled by the current process).
+
+    Parameters
+    ----------
+    conf : BeartypeConf
+        Beartype configuration of the module currently being imported.
+
+    Returns
+    -------
+    str
+        Beartype-specific optimization marker for this configuration.
+    '''
+    assert isinstance(conf, BeartypeConf), f'{repr(conf)} not configuration.'
+
+    # Avoid circular import dependencies.
+    from beartype._conf.confcommon import BEARTYPE_CONF_DEFAULT
+    from beartype._data.claw.dataclawmagic import OPTIMIZATION_MARKER_BEARTYPE
+
+    # Return this marker. Note that the "optimization" parameter accepted by the
+    # cache_from_source() function is required to be strictly alphanumeric.
+    return (
+        f'{OPTIMIZATION_MARKER_BEARTYPE}'
+        # Whether annotated variable assignments are type-checked.
+        f'p{int(conf.claw_is_pep526)}'
+        # Position of the @beartype decorator in decorator chains.
+        f'f{conf.claw_decor_place_func.value}'
+        f't{conf.claw_decor_place_type.value}'
+        # Whether the "conf" keyword is injected (i.e., whether this
+        # configuration is non-default).
+        f'c{int(conf != BEARTYPE_CONF_DEFAULT)}'
+    )
+
+
 #FIXME: Unit test us up, please.
-def cache_from_source_beartype(*args, **kwargs) -> str:
+def make_cache_from_source_beartype(conf: BeartypeConf) -> Callable[..., str]:
     '''
     Beartype-specific variant of the
-    :func:`importlib._bootstrap_external.cache_from_source` function applying a
-    beartype-specific optimization marker to that function.
+    :func:`importlib._bootstrap_external.cache_from_source` function applying
+    the beartype-specific optimization marker for the passed beartype
+    configuration to that function.
 
     This, in turn, ensures that submodules residing in packages registered by a
     prior call to the :func:`beartype_package` function are
     compiled to files with the filetype
-    ``".pyc{optimization}_{OPTIMIZATION_MARKER_BEARTYPE}"``, where
+    ``".pyc{optimization}_{optimization_marker_beartype}"``, where
     ``{optimization}`` is the original ``optimization`` parameter passed to this
-    function call.
+    function call and ``{optimization_marker_beartype}`` is the string returned
+    by the :func:`.make_optimization_marker_beartype` function.
+
+    Parameters
+    ----------
+    conf : BeartypeConf
+        Beartype configuration of the module currently being imported.
+
+    Returns
+    -------
+    Callable[..., str]
+        Variant of that function specific to this configuration.
     '''
 
-    # Avoid circular import dependencies.
-    from beartype._data.claw.dataclawmagic import OPTIMIZATION_MARKER_BEARTYPE
+    # Beartype-specific optimization marker for this configuration.
+    optimization_marker_beartype = make_optimization_marker_beartype(conf)
 
-    # Original optimization parameter passed to this function call if any *OR*
-    # the empty string otherwise.
-    optimization_marker_nonbeartype = kwargs.get('optimization', '')
+    def cache_from_source_beartype(*args, **kwargs) -> str:
 
-    # New optimization parameter applied by this monkey-patch of that function,
-    # uniquifying that parameter with a beartype-specific suffix.
-    kwargs['optimization'] = (
-        f'{optimization_marker_nonbeartype}{OPTIMIZATION_MARKER_BEARTYPE}')
+        # Original optimization parameter passed to this function call if any
+        # *OR* the empty string otherwise.
+        optimization_marker_nonbeartype = kwargs.get('optimization', '')
 
-    # Defer to the implementation of the original cache_from_source() function.
-    return cache_from_source_original(*args, **kwargs)
+        # New optimization parameter applied by this monkey-patch of that
+        # function, uniquifying that parameter with a beartype-specific suffix.
+        kwargs['optimization'] = (
+            f'{optimization_marker_nonbeartype}{optimization_marker_beartype}')
+
+        # Defer to the implementation of the original cache_from_source()
+        # function.
+        return cache_from_source_original(*args, **kwargs)
+
+    # Return this variant.
+    return cache_from_source_beartype
